@@ -155,6 +155,11 @@ def ambient_ctx():
             old = lg.level
             lg.setLevel(5)
             stack.callback(lg.setLevel, old)
+            # (the harness keeps logging disabled process-wide to stay quiet; verbose logging
+            # means the records are really built and handed to the package's NullHandler)
+            off = logging.root.manager.disable
+            logging.disable(logging.NOTSET)
+            stack.callback(logging.disable, off)
         yield
 
 
